@@ -114,10 +114,10 @@ def check_function(ctx, where, node, label, is_template=False):
         # ---- len(raw)
         if isinstance(p, ast.Call) and isinstance(p.func, ast.Name) and p.func.id == 'len' and p.args and p.args[0] is n:
             guard = enclosing_tests(par, p)
-            from .c04 import _only_for_eos_marker
+            from .c04 import _only_for_eos_marker, expand_test_consts as _exp
             if hasattr(where, 'qual') and _only_for_eos_marker(ctx.repo, where):
                 ctx.holds(rule, where, st, 'the strategy is installed only for the end-of-string marker (read-to-end field)', line, clause='a')
-            elif any("b'$'" in g and 'pattern' in g for g in guard):
+            elif any("b'$'" in g and 'pattern' in g for g in (_exp(ctx.repo, where, guard) if hasattr(where, 'qual') else guard)):
                 ctx.holds(rule, where, st, 'len(raw) only under the end-of-string marker guard (read-to-end field)', line, clause='a')
             elif in_rejecting_test(par, p):
                 ctx.holds(rule, where, st, 'bounds check: len(raw) only decides whether to raise', line, clause='a')
